@@ -602,3 +602,66 @@ def e2e_failing(c):
     c.ensure('failed-command-sent-a-bounded-number-of-times', 'sum(1 for x in cmds if x == 0x18) == %d' % (which + (1 if how == 'nack' else 6)))
     c.ensure('nothing-sent-after-the-failed-command', 'len(cmds) > 0 and cmds[-1] == 0x18')
     c.ensure('no-load-after-failure', 'sum(1 for x in cmds if x == 0x14) == %d' % (2 * (which + 1)))
+
+
+# ------------------------------------------------------------------------- upload_buffer for ANY buffer length (loop invariant)
+
+@contract('C12', 'upload_buffer.inductive', [CL + ':Cloader.upload_buffer'],
+          clause='buffer-upload messages fit the radio frame and cover every byte exactly once at the right offset, for a buffer of ANY length: '
+                 'loop invariant "the open frame holds buff[k-count:k] for address+k-count, count <= 24"; a frame is sent exactly when it holds 25 '
+                 'bytes, it is buff[k-25:k] at address+k-25 and the next frame opens at k; the closing frame is buff[n-c:n] at address+n-c with c <= 24. '
+                 'By induction the frames partition buff in order, every byte once, at offset address + index.')
+def upload_inductive(c):
+    buff = c.view('buff', 'bytes')
+    c.int('tid', 0, 255), c.int('page', 0, 65535), c.int('address', 0, 65535)
+    c.require('address + len(buff) <= 65535')
+    link = c.ext('link')
+    cl = cloader(c, link)
+    c.reset_trace()
+    if c.backend == 'sym':
+        import z3
+        from pyvc.values import SView, SInt
+        I = c.I
+
+        def havoc(I_, fr):
+            k = fr.vars['k']
+            count = I.fresh_int('count')
+            fr.vars['count'] = count
+            pk = I.call(I.resolve('cflib.crtp.crtpstack:CRTPPacket'), [], {})
+            I.call(I.getattr(pk, 'set_header'), [0xFF, 0xFF], {})
+            hdr = [I.fresh_int('hdr%d' % j, 0, 255) for j in range(6)]
+            b = fr.vars['buff']
+            win = SView(b.arr, z3.simplify(b.off + k.t - count.t) if not isinstance(k, int) else z3.simplify(b.off + k - count.t), count.t, 'bytearray', pre=hdr)
+            win.byte_range = True
+            pk.attrs['_data'] = win
+            fr.vars['pk'] = pk
+            del I.trace[:]          # the frames of earlier iterations are covered by the per-iteration obligation
+        c.loop_invariant(CL + ':Cloader.upload_buffer', '#1',
+                         ['0 <= count and count <= 24 and count <= k and (k - count) % 25 == 0',
+                          'pk.header == 0xFF and len(pk.data) == 6 + count',
+                          "bytes(pk.data[0:6]) == pack('<BBHH', target_id, 0x14, page, address + k - count)",
+                          'bytes(pk.data[6:]) == buff[k - count:k]'],
+                         havoc, ['count', 'pk'], index='k',
+                         iteration_post=[
+                             ('at-most-one-frame-per-byte', "len(sent('link.send_packet')) <= 1"),
+                             ('frame-sent-iff-it-holds-25-bytes', "iff(len(sent('link.send_packet')) == 1, count == 0) and implies(len(sent('link.send_packet')) == 0, count >= 1)"),
+                             ('sent-frame-is-the-next-25-bytes-at-their-offset',
+                              "implies(len(sent('link.send_packet')) == 1, len(sent('link.send_packet')[0][1][0].data) == 31 and "
+                              "sent('link.send_packet')[0][1][0].header == 0xFF and "
+                              "bytes(sent('link.send_packet')[0][1][0].data[0:6]) == pack('<BBHH', target_id, 0x14, page, address + k - 25) and "
+                              "bytes(sent('link.send_packet')[0][1][0].data[6:]) == buff[k - 25:k])")])
+    c.call((cl, 'upload_buffer'), c.get('tid'), c.get('page'), c.get('address'), buff)
+    c.ensure('no-exception', 'raised is None')
+    c.snapshot('F', "sent('link.send_packet')[-1][1][0]")
+    c.snapshot('cf_', 'len(F.data) - 6')
+    c.ensure('closing-frame-within-the-radio-frame', '0 <= cf_ and cf_ <= 24 and F.header == 0xFF')
+    c.ensure('closing-frame-is-the-rest-at-its-offset', "bytes(F.data[0:6]) == pack('<BBHH', tid, 0x14, page, address + len(buff) - cf_) and bytes(F.data[6:]) == buff[len(buff) - cf_:]")
+    c.ensure('closing-frame-starts-on-a-25-byte-boundary', '(len(buff) - cf_) % 25 == 0')
+    if c.backend == 'native':
+        # whole-wire statement, evaluated on the real code for every witness / sampled input (the symbolic run sees one
+        # arbitrary iteration at a time, so there it is the conjunction of the per-iteration obligations above)
+        c.ensure('native-all-frames-fit-and-partition-the-buffer',
+                 "all(6 <= len(e[1][0].data) <= 31 for e in sent('link.send_packet')) and "
+                 "b''.join(bytes(e[1][0].data[6:]) for e in sent('link.send_packet')) == bytes(buff) and "
+                 "all(unpack('<BBHH', bytes(e[1][0].data[0:6])) == (tid, 0x14, page, address + sum(len(f[1][0].data) - 6 for f in sent('link.send_packet')[:j])) "
+                 "for j, e in enumerate(sent('link.send_packet')))")
